@@ -39,6 +39,7 @@ from . import usertypes
 from .codec import MySeq, MyMap
 
 TRACE: t.List[t.Optional[t.List[t.Any]]] = [None]   # when a list: union nodes record (node, chosen member index)
+_BUILD_DEPTH = [0]
 KEEP: t.List[t.Any] = []   # every built type object stays alive (see DESIGN 3.2)
 
 
@@ -148,7 +149,17 @@ class Node:
 
     def pytype(self) -> t.Any:
         if self._ty is None:
-            self._ty = self.build()
+            if _BUILD_DEPTH[0] == 0:
+                # typing caches subscriptions by *equal* arguments, and Union / Literal equality ignores order:
+                # List[Union[a, b]] may hand back an alias made earlier for List[Union[b, a]].  Start every
+                # top-level build from empty caches so the built type has the member order the spec says.
+                for clear in getattr(t, '_cleanups', ()):
+                    clear()
+            _BUILD_DEPTH[0] += 1
+            try:
+                self._ty = self.build()
+            finally:
+                _BUILD_DEPTH[0] -= 1
             KEEP.append(self._ty)
         return self._ty
 
@@ -1042,7 +1053,10 @@ def scalar_specs(names: t.Sequence[str] = SCALAR_NAMES) -> st.SearchStrategy[t.A
 
 
 lit_values = st.one_of(st.sampled_from(['a', 'b', 'x', '', 'tag']), st.integers(-2, 3), st.booleans(), st.none(), st.sampled_from([b'a', b'']))
-lit_specs = st.lists(lit_values, min_size=1, max_size=3, unique_by=lambda v: (type(v).__name__, v)).map(lambda vs: ('lit', tuple(vs)))
+# literal values in a canonical order: typing caches subscriptions by *equal* arguments and Literal equality ignores order,
+# so ValueOrList[Literal[0, 'a']] may hand back an alias created earlier for Literal['a', 0]
+lit_specs = st.lists(lit_values, min_size=1, max_size=3, unique_by=lambda v: (type(v).__name__, v)).map(
+    lambda vs: ('lit', tuple(sorted(vs, key=lambda v: (type(v).__name__, repr(v))))))
 enum_specs = st.sampled_from(sorted(usertypes.ENUMS)).map(lambda n: ('enum', n))
 sub_specs = st.sampled_from(sorted(usertypes.SUBCLASSES)).map(lambda n: ('sub', n))
 
@@ -1062,7 +1076,7 @@ def hashable_specs() -> st.SearchStrategy[t.Any]:
         base, base,
         st.tuples(st.just('tup'), st.sampled_from(['Tuple', 'tuple']), st.lists(base, max_size=2).map(tuple)),
         st.tuples(st.just('seq'), st.sampled_from(['TupleVar', 'frozenset', 'FrozenSet', 'Sequence']), base),
-        st.tuples(st.just('union'), st.just('Union'), st.lists(base, min_size=2, max_size=3).map(tuple)),
+        st.tuples(st.just('union'), st.just('Union'), st.lists(base, min_size=2, max_size=3, unique_by=repr).map(tuple)),
     )
 
 
@@ -1086,14 +1100,15 @@ def type_specs(max_leaves: int = 4, classes: t.Optional[st.SearchStrategy[t.Any]
             st.tuples(st.just('tup'), st.sampled_from(['Tuple', 'tuple']), st.lists(ch, max_size=3).map(tuple)),
             st.tuples(st.just('map'), st.sampled_from(sorted(MAP_SPELL)), hashable_specs(), ch),
             st.tuples(st.just('map'), st.sampled_from(['Counter', 'counter']), hashable_specs()),
-            st.tuples(st.just('union'), st.sampled_from(['Union', 'Union', 'Optional', 'OptionalFirst']), st.lists(ch, min_size=1, max_size=3).map(tuple)),
+            st.tuples(st.just('union'), st.sampled_from(['Union', 'Union', 'Optional', 'OptionalFirst']),
+                      st.lists(ch, min_size=1, max_size=3, unique_by=repr).map(tuple)),
             st.tuples(st.just('ann'), st.sampled_from([('s', 'int'), ('s', 'float')]), st.lists(COND_NUM, min_size=1, max_size=2).map(tuple)),
             st.tuples(st.just('ann'), st.tuples(st.just('seq'), st.sampled_from(['List', 'Sequence', 'Set']), hashable_specs()),
                       st.lists(COND_LEN, min_size=1, max_size=2).map(tuple)),
             st.one_of(
                 st.tuples(st.just('tv'), st.just('free')),
                 st.tuples(st.just('tv'), st.just('bound'), ch),
-                st.tuples(st.just('tv'), st.just('constrained'), st.lists(ch, min_size=2, max_size=3).map(tuple)),
+                st.tuples(st.just('tv'), st.just('constrained'), st.lists(ch, min_size=2, max_size=3, unique_by=repr).map(tuple)),
                 st.tuples(st.just('vol'), st.one_of(st.none(), ch)),
             ),
         )
